@@ -788,6 +788,23 @@ func (p *Prog) legacyFoldBeforeOffer(c *Ctx, f *Func) {
 			c.R.Violate("R-NEG", p.Pos(foldN.Ast), f.Name, "legacy version folded in before the offer is built", "the legacy ProtocolVersion/Plugins pair is added after the offered list was built: it is accepted but never offered", nil)
 		}
 	} else {
+		// folded in by the constructor, which runs before any Start
+		if nc := p.Fn("NewClient"); nc != nil && foldN == nil && rangeN != nil {
+			ninfo := nc.Pkg.TypesInfo
+			inCtor := false
+			ast.Inspect(nc.Body, func(x ast.Node) bool {
+				if as, ok := x.(*ast.AssignStmt); ok && len(as.Lhs) == 1 {
+					if ix, ok := ast.Unparen(as.Lhs[0]).(*ast.IndexExpr); ok && SelField(ninfo, ix.X) == vpF {
+						inCtor = true
+					}
+				}
+				return true
+			})
+			if inCtor {
+				c.R.Hold("R-NEG", p.Pos(nc.Node()), nc.Name, "legacy version folded in before the offer is built", "the fold is in NewClient, which runs before Start builds the offer", true)
+				return
+			}
+		}
 		c.R.Violate("R-NEG", p.Pos(f.Node()), f.Name, "legacy version folded in before the offer is built", "no store of the legacy plugin set into ClientConfig.VersionedPlugins before the offer", nil)
 	}
 }
